@@ -293,7 +293,7 @@ fn dec_c18(s: &mut Src) -> props::c18::Case {
         }
         tasks.push(kvs);
     }
-    props::c18::Case { sqlite: false, tasks }
+    props::c18::Case { sqlite: false, tasks, after: vec![] }
 }
 
 fn fixed_key() -> &'static (Cryptor, [u8; 32]) {
